@@ -53,6 +53,11 @@ class GenResult(list):
     pending = None
 
 
+class OneShot(list):
+    """What a generator expression evaluates to: its items (computed eagerly), which can be consumed only once - iterating it,
+    or an `in` test on it, uses them up (a later consumer finds it empty)."""
+
+
 class Native:
     """Base class for checker-side abstract objects (e.g. the multigraph stub): attributes are used natively."""
 
@@ -740,6 +745,10 @@ class Interp:
 
     # ------------------------------------------------------------------ expressions
     def iterate(self, v):
+        if isinstance(v, OneShot):
+            items = list(v)
+            del v[:]
+            return items
         if isinstance(v, GenResult):
             if v.pending is not None:
                 raise v.pending  # the consumer exhausts the generator
@@ -815,6 +824,14 @@ class Interp:
                 return self.truth(self.call_func(mth, None, [item], {}, container))
         if isinstance(container, Obj) and "__contains__" in container.attrs:
             return self.truth(self.call(container.attrs["__contains__"], [item], {}))
+        if isinstance(container, OneShot):
+            # the search consumes the generator up to and including the element found (all of it when there is none)
+            for i_, x_ in enumerate(container):
+                if x_ is item or x_ == item:
+                    del container[:i_ + 1]
+                    return True
+            del container[:]
+            return False
         return item in container
 
     def comprehension(self, e, env):
@@ -839,6 +856,8 @@ class Interp:
             return dict(out)
         if isinstance(e, ast.SetComp):
             return set(out)
+        if isinstance(e, ast.GeneratorExp):
+            return OneShot(out)
         return out
 
     def eval(self, e, env):
